@@ -10,6 +10,7 @@ structure ReplicaSt where
   w : WireSt := {}
   cfg : Option RCfg := none
   r : RState := {}
+  nwire : Nat := 0
 
 def keys : Keys := { tmo := tmoKey }
 
@@ -99,6 +100,80 @@ def finish (st : ReplicaSt) (c : RCfg) (res : RState × List Out) : ReplicaSt ×
     let w'' := { w' with c := { c1 with truth := r'.truth, nextBytes := r'.nextBytes } }
     ({ st with w := w'', r := r' }, joinWith " ; " strs ++ " | " ++ dumpR w'' c r')
 
+def dropsOf (rest : List String) : List String :=
+  match field "drop" rest with
+  | some "-" => []
+  | some d => splitChar ',' d
+  | none => []
+
+def dropQCm (q : Option QC) (pre : String) (d : List String) : Option QC :=
+  if d.contains pre then none else
+  q.map fun q =>
+    let q := if d.contains (pre ++ ".sig") then { q with sig := none } else q
+    if d.contains (pre ++ ".hash") then { q with hash := "" } else q
+
+def dropSIm (si : SyncInfo) (d : List String) : SyncInfo :=
+  if d.contains "si" then {} else
+  { qc := dropQCm si.qc "qc" d,
+    tc := if d.contains "tc" then none else si.tc.map fun t => if d.contains "tc.sig" then { t with sig := none } else t,
+    agg := if d.contains "agg" then none else si.agg.map fun a => if d.contains "agg.sig" then { a with sig := none } else a }
+
+/-- what the gorums handler puts on the event loop for a (possibly mutilated) wire message:
+`none` = bad op, `some none` = ignored by the handler -/
+def wireEvent (st : ReplicaSt) (kind name : String) (rest : List String) : Option (Option Ev × Option (String × Block)) :=
+  let s := st.w.c
+  let d := dropsOf rest
+  let frm := natField "from" rest
+  match kind with
+  | "propose" =>
+    match s.blocks.lookup name with
+    | none => none
+    | some b =>
+      let ag := match field "agg" rest with
+        | some "-" => some none
+        | none => some none
+        | some a => (s.aggs.lookup a).map some
+      match ag with
+      | none => none
+      | some ag =>
+        match frm with
+        | none => some (none, none)              -- no peer id: the handler returns
+        | some frm =>
+        if d.contains "block" then some (none, none) else
+        let qc := (dropQCm (some b.qc) "block.qc" d).getD ⟨none, 0, ""⟩
+        let parent := if d.contains "block.parent" then "" else b.parent
+        let cmds := if d.contains "block.commands" then [] else b.cmds
+        let changed := qc != b.qc || parent != b.parent || cmds != b.cmds || d.contains "block.timestamp" || frm != b.proposer
+        let nm := s!"W{st.nwire + 1}"
+        let b' : Block := { hash := if changed then nm else b.hash, parent := parent, view := b.view, proposer := frm, qc := qc, cmds := cmds }
+        let ag' := if d.contains "agg" then none else ag.map fun a => if d.contains "agg.sig" then { a with sig := none } else a
+        some (some (.propose frm b' ag'), if changed then some (nm, b') else none)
+  | "vote" =>
+    match rest with
+    | blk :: _ =>
+      match s.sigs.lookup name, s.hashOf blk with
+      | some sg, some h =>
+        match frm with
+        | none => some (none, none)
+        | some frm => some (some (.vote frm (if d.contains "sig" then none else some sg) (if d.contains "hash" then "" else h) false), none)
+      | _, _ => none
+    | [] => none
+  | "timeout" =>
+    match s.tmos.lookup name with
+    | none => none
+    | some t =>
+      let si := dropSIm { qc := t.qc } d
+      some (some (.timeout ⟨frm.getD 0, t.view, if d.contains "viewsig" then none else t.viewSig,
+        if d.contains "msgsig" then none else t.msgSig, si⟩), none)
+  | "newview" =>
+    match st.w.sis.lookup name with
+    | none => none
+    | some si =>
+      match frm with
+      | none => some (none, none)
+      | some frm => some (some (.newview frm (dropSIm si d)), none)
+  | _ => none
+
 def ReplicaSt.sync (st : ReplicaSt) : RState :=
   { st.r with truth := st.w.c.truth, nextBytes := st.w.c.nextBytes }
 
@@ -138,6 +213,16 @@ def replicaStep (st : ReplicaSt) (toks : List String) : ReplicaSt × String :=
   | "local-timeout" :: rest =>
     let v := (natField "view" rest).getD st.r.view
     finish st c (step keys c st.sync (.localTimeout v))
+  | "wire" :: kind :: name :: rest =>
+    let st1 := if kind == "propose" then { st with nwire := st.nwire + 1 } else st
+    match wireEvent st kind name rest with
+    | none => (st, "bad-op")
+    | some (none, _) => finish st1 c (st1.sync, [])
+    | some (some e, reg) =>
+      let st2 := match reg with
+        | some (nm, b) => { st1 with w := { st1.w with c := { st1.w.c with blocks := (nm, b) :: st1.w.c.blocks } } }
+        | none => st1
+      finish st2 c (step keys c st2.sync e)
   | "deliver" :: kind :: name :: rest =>
     let frm := (natField "from" rest).getD 0
     match kind with
@@ -188,6 +273,7 @@ judged on the implementation's answers.  The symbolic script state (who really s
 tracked by running the model alongside. -/
 structure ReplicaOr where
   st : ReplicaSt := {}
+  lastDump : List String := []
   lastVote : Nat := 0           -- view of the last block the replica signed
   maxTimeout : Nat := 0         -- highest view for which it signed a timeout
   anyVote : Bool := false
@@ -239,10 +325,11 @@ def replicaOracleStep (o : ReplicaOr) (toks : List String) : ReplicaOr × String
   let o1 := { o with st := st' }
   let isStep := match lhs with
     | "deliver" :: _ => true
+    | "wire" :: _ => true
     | "local-timeout" :: _ => true
     | ["start"] => true
     | _ => false
-  if lhs.head? == some "replica" then ({ o1 with lastVote := 0, maxTimeout := 0, anyVote := false, view := 1, hqcView := 0, committedView := 0 }, "pass") else
+  if lhs.head? == some "replica" then ({ o1 with lastVote := 0, maxTimeout := 0, anyVote := false, view := 1, hqcView := 0, committedView := 0, lastDump := [] }, "pass") else
   if !isStep then (o1, "pass") else
   if rhs == ["bad-op"] then (o1, "pass") else
   if rhs.contains "panic" then (o1, s!"fail panic on {joinWith " " lhs}") else
@@ -292,8 +379,12 @@ def replicaOracleStep (o : ReplicaOr) (toks : List String) : ReplicaOr × String
   let comName := (field "committed" dump).getD "?"
   let comView := ((blockOf st' comName).map (·.view)).getD 0
   let vcs := effs.filterMap fun e => (stripParen "vc(" e).bind fun s => ((splitChar ',' s).head?.bind (·.toNat?))
-  let o3 := { o2 with view := view, hqcView := hqView, committedView := comView }
-  if view < o2.view then (o3, s!"fail view-decreased {o2.view} -> {view}")
+  let o3 := { o2 with view := view, hqcView := hqView, committedView := comView, lastDump := dump }
+  if lhs.contains "expect=inert" && !o2.lastDump.isEmpty && dump != o2.lastDump then
+    (o3, s!"fail unverified-input-changed-state {joinWith " " lhs}: {joinWith " " o2.lastDump} -> {joinWith " " dump}")
+  else if lhs.contains "expect=inert" && !effs.isEmpty then
+    (o3, s!"fail unverified-input-had-effects {joinWith " " lhs}: {joinWith " " effs}")
+  else if view < o2.view then (o3, s!"fail view-decreased {o2.view} -> {view}")
   else if hqView < o2.hqcView then (o3, s!"fail hqc-decreased {o2.hqcView} -> {hqView}")
   else if comView < o2.committedView then (o3, s!"fail committed-decreased {o2.committedView} -> {comView}")
   else if vcs != (List.range (view - o2.view)).map (fun i => o2.view + 1 + i) then
